@@ -1,4 +1,5 @@
 import HapVerif.Proofs.Reconnect
+import HapVerif.Props.C10
 
 /-! # C11 - a pairing never holds more than one open connection and leaks none
 
@@ -97,6 +98,51 @@ theorem C11_close_total (hosts : List Host) (evs : List Ev) (e : Ev) (he : e = .
   rcases he with rfl | rfl
   · exact key s.shutdown
   · exact key true
+
+/-- ... and nothing opens afterwards either: after `close()`, whatever was in flight when it was called, time
+    passing, the accessory closing connections, cancelled callers and repeated closes never produce an open
+    connection - only a new request for the connection (ensure / zeroconf) can -/
+theorem C11_nothing_opens_after_close (hosts : List Host) (evs more : List Ev) (e : Ev)
+    (he : e = .close ∨ e = .shutdown) (hm : ∀ x ∈ more, x.isTrigger = false) :
+    (run (step (run (init hosts) evs) e) more).open_ = [] := by
+  have h0 := C11_close_total hosts evs e he
+  have hi0 : Inv (step (run (init hosts) evs) e) := step_inv _ _ (run_inv hosts evs)
+  have hc0 : (step (run (init hosts) evs) e).closing = true := by
+    have := C10_close_sets_closing (run (init hosts) evs) (run_inv hosts evs)
+    rcases he with rfl | rfl
+    · exact this.1
+    · exact this.2.1
+  have key : ∀ (l : List Ev) (s : St), Inv s → s.closing = true → s.open_ = [] → (∀ x ∈ l, x.isTrigger = false) →
+      (run s l).open_ = [] := by
+    intro l
+    induction l with
+    | nil => intro s _ _ ho _; exact ho
+    | cons x xs ih =>
+      intro s hi hcl ho hl
+      have hx := hl x (by simp)
+      exact ih _ (step_inv s x hi) (silent_step s x hi hcl (Or.inl hx)).2.1
+        (closed_step s x hi hcl (Or.inl hx) ho) (fun y hy => hl y (by simp [hy]))
+  exact key more _ hi0 hc0 h0.1 hm
+
+/-- after `shutdown()` no event whatsoever - zeroconf updates and new callers included - opens a connection -/
+theorem C11_nothing_opens_after_shutdown (hosts : List Host) (evs more : List Ev) :
+    (run (step (run (init hosts) evs) .shutdown) more).open_ = [] := by
+  have h0 := C11_close_total hosts evs .shutdown (Or.inr rfl)
+  have hi0 : Inv (step (run (init hosts) evs) .shutdown) := step_inv _ _ (run_inv hosts evs)
+  have hf := C10_close_sets_closing (run (init hosts) evs) (run_inv hosts evs)
+  have key : ∀ (l : List Ev) (s : St), Inv s → s.shutdown = true → s.open_ = [] → (run s l).open_ = [] := by
+    intro l
+    induction l with
+    | nil => intro s _ _ ho; exact ho
+    | cons x xs ih =>
+      intro s hi hsd ho
+      have hcl := hi.sh hsd
+      have hsd' : (step s x).shutdown = true := by
+        rcases (silent_step s x hi hcl (Or.inr hsd)).2.2 with h3 | h3
+        · rw [h3]; exact hsd
+        · subst h3; exact (closeConn_flags s true hi).2
+      exact ih _ (step_inv s x hi) hsd' (closed_step s x hi hcl (Or.inr hsd) ho)
+  exact key more _ hi0 hf.2.2 h0.1
 
 /-- the loss of a connection that is not the current one disturbs nothing: in a reachable state such a
     connection is not even open any more, and the step is the identity -/
